@@ -189,6 +189,19 @@ def same(a, b, dtype=True, rtol=0, atol=0, equal_nan=True):
         return 'not comparable (%s: %s)' % (type(e).__name__, e)
 
 
+_ID_FORMS = (int, np.int64, np.uint16, np.int32, np.uint32, np.uint64, np.int16)
+
+
+def as_id(i, k):
+    """The id i as a Python int or as a NumPy scalar of a rotating integer dtype (what iterating over
+    np.unique(spike_clusters) hands to user code); falls back to int when the value does not fit."""
+    f = _ID_FORMS[k % len(_ID_FORMS)]
+    if f is int:
+        return int(i)
+    info = np.iinfo(f)
+    return f(i) if info.min <= int(i) <= info.max else int(i)
+
+
 class Called(object):
     """Result of calling code under test: either .value or .exc (with traceback text)."""
     __slots__ = ('ok', 'value', 'exc', 'tb')
